@@ -85,6 +85,19 @@ def main():
     rng = random.Random(ck.seed)
     rng.shuffle(progs)
     groups = [progs[i:i + 4] for i in range(0, len(progs), 4)]
+    # programs that could interact through state kept between compilations: a compilation that fails
+    # inside a macro body, then programs using the same names; a name that is both a hook and a macro;
+    # three greedy clauses finishing on the same input
+    def hp(name, src, args=()):
+        return {"name": name, "src": src, "args": list(args), "feats": {}}
+    h1 = hp("hist-fails-in-macro", 'out int a;\nmacro put(out target) { "x"; target = 7; nosuchhook(); }\nparser { put(a); }\n')
+    h2 = hp("hist-same-names", 'out int a;\nout int target;\nparser { "x"; target = 7; }\n')
+    h3 = hp("hist-undeclared", 'out int a;\nparser { "x"; target = 7; }\n')
+    h4 = hp("hist-hook-and-macro", 'hook greet;\nmacro greet() { "hello "; }\nparser { greet(); "world"; }\n')
+    h5 = hp("hist-greedy-three", 'out int which;\nparser { greedy case { /[a-z]+/ -> { which = 1; } prio 1 "define" -> { which = 2; } prio 2 /defin[e]/ -> { which = 3; } } ";"; }\n')
+    h6 = hp("hist-macro-args", 'out int a;\nout int b;\nmacro two(out x, expr e) { x = e; "k"; }\nmacro one(out y) { two(y, [y + 1]); }\nparser { one(a); one(b); }\n')
+    groups += [[h1, h2, h3, h4], [h4, h5, h1, h3], [h6, h1, h6, h2]]
+    progs = progs + [h1, h2, h3, h4, h5, h6]
     with mp.Pool(min(14, os.cpu_count() or 4)) as pool:
         results = pool.map(work, [(g, ck.seed, ck.tier) for g in groups], chunksize=1)
     st = {"programs": len(progs), "histories_compared": 0}
